@@ -373,3 +373,10 @@ func Describe(v ssa.Value) string {
 	}
 	return "value:" + v.Name() + ":" + ShortType(v.Type())
 }
+
+// PhiInitLatch splits the edges of a loop-header phi into the single
+// loop-invariant value coming from outside the loop and the single value
+// coming from inside.
+func PhiInitLatch(phi *ssa.Phi, l *Loop) (init, latch ssa.Value, ok bool) {
+	return phiInitValueAndLatch(phi, l)
+}
